@@ -91,6 +91,9 @@ func verifyFunction(w *World, fn *ssa.Function, c *Contract, sweep bool) (res *F
 		free = append(free, v)
 	}
 	fc := e.newFnCtx(fn)
+	if c != nil {
+		c = normalizeCallKeys(c, fn)
+	}
 	fc.contract = c
 	if c != nil {
 		fc.env = e.contractEnv(c, params, st, st)
@@ -110,6 +113,7 @@ func verifyFunction(w *World, fn *ssa.Function, c *Contract, sweep bool) (res *F
 	fc.env.old = entry
 	exit, results := e.runFunction(fc, st, params, free)
 	if c != nil {
+		e.checkCallKeys(fc, c)
 		post := e.contractEnv(c, params, exit, entry)
 		post.bindResults(fn.Signature, results)
 		for _, r := range results {
@@ -268,4 +272,92 @@ func verifyLemma(w *World, l *Lemma) (res *FnResult) {
 
 func sortResults(rs []*FnResult) {
 	sort.SliceStable(rs, func(i, j int) bool { return rs[i].Fn < rs[j].Fn })
+}
+
+// checkCallKeys: every assert/assume/preserves clause keyed by a call must name a call that exists in the function -
+// a key that matches nothing would silently drop the clause.
+func (e *Engine) checkCallKeys(fc *fnCtx, c *Contract) {
+	have := map[string]bool{}
+	counts := map[string]int{}
+	for _, b := range fc.fn.Blocks {
+		for _, ins := range b.Instrs {
+			if call, ok := ins.(*ssa.Call); ok {
+				if n := callName(call.Common()); n != "" {
+					have[fmt.Sprintf("call %s#%d", n, counts[n])] = true
+					counts[n]++
+				}
+			}
+		}
+	}
+	var missing []string
+	chk := func(k string) {
+		if strings.HasPrefix(k, "call ") && !have[k] {
+			missing = append(missing, k)
+		}
+	}
+	for k := range c.Asserts {
+		chk(k)
+	}
+	for k := range c.Assumes {
+		chk(k)
+	}
+	for k := range c.Preserves {
+		chk(k)
+	}
+	for k := range c.PreserveAll {
+		chk(k)
+	}
+	if len(missing) > 0 {
+		sort.Strings(missing)
+		var all []string
+		for k := range have {
+			all = append(all, k)
+		}
+		sort.Strings(all)
+		panic(specError{fmt.Sprintf("%s: clause keyed by a call that does not occur in the function: %s (calls present: %s)", funcDisplayName(fc.fn), strings.Join(missing, ", "), strings.Join(all, ", "))})
+	}
+}
+
+// normalizeCallKeys: "call f#k" with an unqualified f names a function of the package under verification.
+func normalizeCallKeys(c *Contract, fn *ssa.Function) *Contract {
+	if fn.Pkg == nil {
+		return c
+	}
+	prefix := strings.ReplaceAll(fn.Pkg.Pkg.Path(), repoMod+"/", "") + "."
+	norm := func(k string) string {
+		if !strings.HasPrefix(k, "call ") {
+			return k
+		}
+		name := strings.TrimPrefix(k, "call ")
+		if strings.ContainsAny(name, "./(") {
+			return k
+		}
+		return "call " + prefix + name
+	}
+	cc := *c
+	if c.Asserts != nil {
+		cc.Asserts = map[string][]Clause{}
+		for k, v := range c.Asserts {
+			cc.Asserts[norm(k)] = v
+		}
+	}
+	if c.Assumes != nil {
+		cc.Assumes = map[string][]Clause{}
+		for k, v := range c.Assumes {
+			cc.Assumes[norm(k)] = v
+		}
+	}
+	if c.Preserves != nil {
+		cc.Preserves = map[string][]SExpr{}
+		for k, v := range c.Preserves {
+			cc.Preserves[norm(k)] = v
+		}
+	}
+	if c.PreserveAll != nil {
+		cc.PreserveAll = map[string]bool{}
+		for k, v := range c.PreserveAll {
+			cc.PreserveAll[norm(k)] = v
+		}
+	}
+	return &cc
 }
